@@ -243,7 +243,8 @@ Definition kv_skip (first : kvrec) (v : option bytes) : bool :=
   | None => match snd first with None => true | Some _ => false end
   end.
 Definition no_skip {D V : Type} (_ : D) (_ : V) : bool := false.
-Definition creat_is_empty (c : creat) : bool := negb (cr_created c).
+(* values of the creatable space are normalised: not created = creat_none *)
+Definition creat_is_empty (c : creat) : bool := creat_eqb c creat_none.
 
 Definition asp := sp addr acct.
 Definition rsp := sp (addr * cidx) res.
@@ -275,8 +276,10 @@ Definition c_newblock := sp_newblock cidx creat creat N.eqb creat_interp.
 Record cfg := mkCfg {
   cf_lookback : nat;     (* config.Local.MaxAcctLookback *)
   cf_cache : bool;       (* !DisableLedgerLRUCache *)
-  cf_pcap : nat;         (* base*PendingBufferSize: capacity of the pending channels *)
-  cf_buf : nat }.        (* the same constant as slack of the prune size in newBlockImpl *)
+  (* baseAccountsPendingAccountsBufferSize / baseResourcesPendingAccountsBufferSize /
+     baseKVPendingBufferSize: capacity of the pending channels of a cache and slack of its
+     prune size in newBlockImpl *)
+  cf_na : nat; cf_nr : nat; cf_nk : nat }.
 
 Inductive phase :=
 | PIdle
@@ -355,9 +358,9 @@ Definition set_phase (s : st) (p : phase) : st :=
 Definition newblock_mem (s : st) (d : delta) : st :=
   let c := t_cfg s in
   mkSt c (t_blocks s) (t_dbRound s) (t_dbr s) (t_deltas s ++ [d])
-       (a_newblock (cf_cache c) (cf_buf c) (d_accts d) (t_acc s))
-       (r_newblock (cf_cache c) (cf_buf c) (d_res d) (t_res s))
-       (k_newblock (cf_cache c) (cf_buf c) (d_kv d) (t_kv s))
+       (a_newblock (cf_cache c) (cf_na c) (d_accts d) (t_acc s))
+       (r_newblock (cf_cache c) (cf_nr c) (d_res d) (t_res s))
+       (k_newblock (cf_cache c) (cf_nk c) (d_kv d) (t_kv s))
        (c_newblock false 0 (d_cre d) (t_cre s))
        (t_queue s) (t_phase s).
 Definition newblock (s : st) (d : delta) : st :=
@@ -470,13 +473,13 @@ Definition step (s : st) (o : op) : st * out :=
       (set_spaces s (sp_prune _ _ N.eqb en na (t_acc s)) (sp_prune _ _ pair_eqb en nr (t_res s))
                   (sp_prune _ _ bytes_eqb en nk (t_kv s)) (t_cre s), RDone)
   | OQAcct rnd a =>
-      let (r, a') := a_lookup en (cf_pcap c) (t_dbRound s) (t_dbr s) (map d_accts (t_deltas s)) (t_acc s) rnd a in
+      let (r, a') := a_lookup en (cf_na c) (t_dbRound s) (t_dbr s) (map d_accts (t_deltas s)) (t_acc s) rnd a in
       (set_spaces s a' (t_res s) (t_kv s) (t_cre s), RAcct r)
   | OQRes rnd a ci =>
-      let (r, r') := r_lookup en (cf_pcap c) (t_dbRound s) (t_dbr s) (map d_res (t_deltas s)) (t_res s) rnd (a, ci) in
+      let (r, r') := r_lookup en (cf_nr c) (t_dbRound s) (t_dbr s) (map d_res (t_deltas s)) (t_res s) rnd (a, ci) in
       (set_spaces s (t_acc s) r' (t_kv s) (t_cre s), RRes r)
   | OQKv rnd k =>
-      let (r, k') := k_lookup en (cf_pcap c) (t_dbRound s) (t_dbr s) (map d_kv (t_deltas s)) (t_kv s) rnd k in
+      let (r, k') := k_lookup en (cf_nk c) (t_dbRound s) (t_dbr s) (map d_kv (t_deltas s)) (t_kv s) rnd k in
       (set_spaces s (t_acc s) (t_res s) k' (t_cre s), RKv r)
   | OQCre rnd ci ct =>
       (s, RCre (lmap (fun v => creator_of v ct)
